@@ -4,7 +4,7 @@ from __future__ import annotations
 import ast
 from typing import List, Optional, Tuple
 
-from fjsa.flow import FuncFlow, call_args, same, txt
+from fjsa.flow import FuncFlow, call_args, lt_form, same, txt
 from fjsa.model import FuncInfo
 from fjsa.report import Check
 from fjsa.rules import wmean
@@ -195,21 +195,25 @@ def run(check: Check):
   shape_ret = isinstance(fwd.elts[1], ast.Call) and txt(fwd.elts[1].args[0]) == f'{x}.shape'
   check.ob('R-SIB.rotation', rot, 'returns the original shape', shape_ret, 'the shape handed to the inverse is the input\'s own shape')
   # ---------------- inverse
-  out_name = None
   cands = []
-  for ds in iff.rd.defs_at.values():
-    for d in ds:
-      if d.kind == 'assign' and d.value is not None and not d.index:
-        G = _analyse(iff, d.value)
-        if G is not None:
-          cands.append((d, G))
+  seen_sub = set()
+  for n in iff.cfg.nodes:
+    if n.ast is None:
+      continue
+    for x in n.walk():
+      if id(x) in seen_sub or not isinstance(x, ast.BinOp):
+        continue
+      G = _analyse(iff, x)
+      if G is not None:
+        cands.append((x, G))
+        for y in ast.walk(x):
+          seen_sub.add(id(y))
   if len(cands) != 1 or cands[0][1]['extra']:
     check.inconclusive('R-SIB.rotation', inv, 'D H(x) / sqrt(len(x))',
                        'the inverse is not written as a product/quotient of the transform, the signs and one scale factor: its agreement '
                        'with the rotation cannot be decided structurally')
   else:
-    d0, G = cands[0]
-    out_name = d0.name
+    scaled, G = cands[0]
     t_arg_ok = iff.param_of(G['vec']) == ix
     rd = G['sign_def']
     shape_ok = rd is not None and len(rd.args) >= 2 and txt(rd.args[1]) == f'{ix}.shape' and iff.param_of(rd.args[0]) == irng
@@ -227,14 +231,25 @@ def run(check: Check):
   inv_bypass = []
   for _, rv in iff.returns():
     this_ok = False
-    if isinstance(rv, ast.Call) and iff.ext(rv.func) == 'jax.numpy.reshape' and len(rv.args) == 2 and iff.param_of(rv.args[1]) == ishape:
-      for y in iff.expand(rv.args[0]):
-        # w.take(arange(prod(shape)))  or  w[:prod(shape)]
-        t = txt(y)
-        uses_out = out_name is not None and t.startswith(out_name)
-        size_defs = [d for ds in iff.rd.defs_at.values() for d in ds if isinstance(d.value, ast.Call) and iff.ext(d.value.func) in (
-            'jax.numpy.prod', 'numpy.prod') and iff.param_of(d.value.args[0]) == ishape]
-        this_ok = this_ok or (uses_out and bool(size_defs) and size_defs[0].name in t)
+    scaled_expr = cands[0][0] if len(cands) == 1 else None
+    for rvx in iff.expand(rv):
+      if isinstance(rvx, ast.Call) and iff.ext(rvx.func) == 'jax.numpy.reshape' and len(rvx.args) == 2 and iff.param_of(rvx.args[1]) == ishape:
+        for y in iff.expand(rvx.args[0]):
+          # w.take(arange(prod(shape)))  or  w[:prod(shape)]
+          base = size = None
+          if isinstance(y, ast.Call) and isinstance(y.func, ast.Attribute) and y.func.attr == 'take' and y.args:
+            base = y.func.value
+            ar = iff.expand1(y.args[0])
+            if isinstance(ar, ast.Call) and iff.ext(ar.func) in ('jax.numpy.arange', 'numpy.arange') and len(ar.args) == 1:
+              size = ar.args[0]
+          elif isinstance(y, ast.Subscript) and isinstance(y.slice, ast.Slice) and y.slice.lower is None and y.slice.step is None:
+            base, size = y.value, y.slice.upper
+          if base is None or size is None:
+            continue
+          from_scaled = scaled_expr is not None and any(b is scaled_expr for b in iff.expand(base))
+          size_ok = any(isinstance(z, ast.Call) and iff.ext(z.func) in ('jax.numpy.prod', 'numpy.prod', 'math.prod') and z.args and
+                        iff.param_of(z.args[0]) == ishape for z in iff.expand(size))
+          this_ok = this_ok or (from_scaled and size_ok)
     crop_ok = crop_ok or this_ok
     if not this_ok:
       inv_bypass.append(rv)
@@ -302,8 +317,10 @@ def run(check: Check):
   wh = repo.func(MOD, 'walsh_hadamard_transform')
   wff = FuncFlow.of(repo, wh)
   check.analysed(wh)
-  guard = any(n.kind == 'if' and isinstance(n.ast.test, ast.Compare) and txt(n.ast.test.left) == 'small_n' and isinstance(
-      n.ast.test.ops[0], ast.LtE) and any(isinstance(s, ast.Raise) for s in n.ast.body) for n in wff.cfg.nodes)
+  def _small_guard(t):
+    f = lt_form(t)   # small_n <= 1  or  small_n < 2
+    return f is not None and txt(f[0]) == 'small_n' and isinstance(f[2], ast.Constant) and ((not f[1] and f[2].value == 1) or (f[1] and f[2].value == 2))
+  guard = any(n.kind == 'if' and _small_guard(n.ast.test) and any(isinstance(s, ast.Raise) for s in n.ast.body) for n in wff.cfg.nodes)
   had = any(isinstance(x, ast.Call) and wmean.repo_fn(wff, x) == f'{MOD}:hadamard_matrix' and txt(x.args[0]) == 'd' for n in wff.cfg.nodes
             if n.ast is not None for x in n.walk())
   check.ob('R-SIB.rotation', wh, 'small_n <= 1 -> ValueError; hadamard_matrix(d) per axis size d', guard and had,
@@ -340,15 +357,17 @@ def _schedule(check: Check, wh: FuncInfo, wff: FuncFlow):
     c = ein[0]
     ok, why = False, 'subscripts not recognised'
 
-    def local_def(name_node):
-      ds = [d for d in wff.defs_for(name_node) if d.value is not None]
+    def local_def(e):
+      if not isinstance(e, ast.Name):
+        return e
+      ds = [d for d in wff.defs_for(e) if d.value is not None]
       return ds[0].value if len(ds) == 1 else None
 
-    spec = local_def(c.args[0]) if isinstance(c.args[0], ast.Name) else c.args[0]
+    spec = local_def(c.args[0])
     if isinstance(spec, ast.JoinedStr):
       parts = [(v.value if isinstance(v, ast.Constant) else v.value) for v in spec.values]
       shape_ok = (len(parts) == 5 and isinstance(parts[1], str) and parts[1] == ',' and isinstance(parts[3], str) and parts[3] == '->' and all(
-          isinstance(parts[k], ast.Name) for k in (0, 2, 4)))
+          isinstance(parts[k], ast.AST) for k in (0, 2, 4)))
       if shape_ok:
         A, B, C = (local_def(parts[k]) for k in (0, 2, 4))
         # A: ''.join(str(j) for j in range(N))
@@ -359,7 +378,7 @@ def _schedule(check: Check, wh: FuncInfo, wff: FuncFlow):
           g = A.args[0].generators[0]
           if isinstance(g.iter, ast.Call) and wff.ext(g.iter.func) == 'builtins.range' and len(g.iter.args) == 1 and txt(A.args[0].elt) == f'str({txt(g.target)})':
             N = g.iter.args[0]
-            nd = local_def(N) if isinstance(N, ast.Name) else None
+            nd = local_def(N)
             a_ok = nd is not None and isinstance(nd, ast.Call) and wff.ext(nd.func) == 'builtins.len'
         # B: f'{i}{K}' in either order (Hadamard matrices are symmetric)
         b_ok, K = False, None
@@ -371,8 +390,8 @@ def _schedule(check: Check, wh: FuncInfo, wff: FuncFlow):
               b_ok = True
         # C: A.replace(str(i), str(K), 1)
         c_ok = False
-        if K is not None and isinstance(C, ast.Call) and isinstance(C.func, ast.Attribute) and C.func.attr == 'replace' and isinstance(C.func.value, ast.Name) and \
-            isinstance(parts[0], ast.Name) and C.func.value.id == parts[0].id and len(C.args) >= 2:
+        if K is not None and isinstance(C, ast.Call) and isinstance(C.func, ast.Attribute) and C.func.attr == 'replace' and \
+            txt(local_def(C.func.value)) == txt(A) and len(C.args) >= 2:
           c_ok = txt(C.args[0]) == f'str({I})' and txt(C.args[1]) == f'str({txt(K)})'
         # K is a label not used by y: N + c with c >= 0 (N itself is unused by range(N)), and single digit: guard K >= 10 -> raise
         k_fresh = False
@@ -386,10 +405,10 @@ def _schedule(check: Check, wh: FuncInfo, wff: FuncFlow):
         if K is not None:
           for n in wff.cfg.nodes:
             if n.kind == 'if' and isinstance(n.ast.test, ast.Compare) and len(n.ast.test.ops) == 1 and any(isinstance(s_, ast.Raise) for s_ in n.ast.body):
-              t = n.ast.test
-              if txt(t.left) == txt(K) and isinstance(t.comparators[0], ast.Constant):
-                v = t.comparators[0].value
-                guard = (isinstance(t.ops[0], ast.GtE) and v <= 10) or (isinstance(t.ops[0], ast.Gt) and v <= 9)
+              f = lt_form(n.ast.test)   # 10 <= K  or  9 < K  (however written)
+              if f is not None and txt(f[2]) == txt(K) and isinstance(f[0], ast.Constant) and isinstance(f[0].value, int):
+                v = f[0].value
+                guard = guard or (not f[1] and v <= 10) or (f[1] and v <= 9)
         args_ok = len(c.args) >= 3 and isinstance(c.args[2], ast.Subscript) and txt(c.args[2].slice) == lp.target.elts[1].id
         ok = a_ok and b_ok and c_ok and k_fresh and guard and args_ok
         why = (f'y carries all axes={a_ok}; the Hadamard factor carries axis i and one fresh label={b_ok}; the output replaces axis i by '
